@@ -55,6 +55,15 @@ def build_inner(spec: dict):
     raise core.HarnessError(f"unknown inner {k}")
 
 
+SWAPS = [
+    {"k": "text", "text": "alpha beta gamma delta epsilon zeta eta theta iota kappa lambda mu nu xi omicron pi rho sigma tau"},
+    {"k": "fixed", "rows": 9, "cols": 7},
+    {"k": "pile", "items": [{"k": "text", "text": "one two three four five six seven"}, {"k": "div"}, {"k": "edit", "caption": "e:", "text": "x\ny\nz"}, {"k": "text", "text": "tail\nend"}]},
+    {"k": "text", "text": "short"},
+    {"k": "fixed", "rows": 2, "cols": 30},
+]
+
+
 def content_rows(canv) -> list:
     out = []
     for row in canv.content():
@@ -192,29 +201,11 @@ class _Run:
         sc, inner, top = self.sc, self.inner, self.top
         size = tuple(cfg["size"])
         focus = True
-        self.inner_handled = None
-        orig_kp = getattr(inner, "keypress", None)
-        if orig_kp is not None:
-
-            def rec_keypress(sz, key):
-                rv = orig_kp(sz, key)
-                self.inner_handled = rv is None
-                return rv
-
-            inner.keypress = rec_keypress
+        self.direct = True
+        self.hook_inner(inner)
         last = None  # (size, p, top_height) of the previous render at constant size
         prev_frame = None  # the previous checked frame, kept across position changes (clause 1b)
         since_render: list = []  # operations since that frame
-        orig_me = getattr(inner, "mouse_event", None)
-        self.inner_mouse_handled = None
-        if orig_me is not None:
-
-            def rec_mouse(sz, event, button, col, row, focus_):
-                rv = orig_me(sz, event, button, col, row, focus_)
-                self.inner_mouse_handled = bool(rv)
-                return rv
-
-            inner.mouse_event = rec_mouse
         pending_actions = 0
         handled_key_since_render = None
         self.log.add("cfg", [repr(cfg["inner"])[:200], list(size), repr(cfg.get("bar"))])
@@ -265,6 +256,9 @@ class _Run:
                 elif k == "content":
                     self.change_content(op)
                     last = None
+                    if op.get("swap") is not None:
+                        prev_frame = None
+                        handled_key_since_render = None
                 elif k == "focus":
                     focus = bool(op.get("on", True))
                 elif k == "render":
@@ -318,11 +312,49 @@ class _Run:
             return
         self.res.probe("position_change_checked")
 
+    direct = False
+
+    def hook_inner(self, inner) -> None:
+        """Record (on the instance) whether the wrapped widget handled the last key / mouse event."""
+        self.inner_handled = None
+        self.inner_mouse_handled = None
+        orig_kp = getattr(inner, "keypress", None)
+        if orig_kp is not None:
+
+            def rec_keypress(sz, key):
+                rv = orig_kp(sz, key)
+                self.inner_handled = rv is None
+                return rv
+
+            inner.keypress = rec_keypress
+        orig_me = getattr(inner, "mouse_event", None)
+        if orig_me is not None:
+
+            def rec_mouse(sz, event, button, col, row, focus_):
+                rv = orig_me(sz, event, button, col, row, focus_)
+                self.inner_mouse_handled = bool(rv)
+                return rv
+
+            inner.mouse_event = rec_mouse
+
     def change_content(self, op: dict) -> None:
         import urwid  # noqa: PLC0415
 
         inner = self.inner
         n = op.get("n", 1)
+        if op.get("swap") is not None:
+            # the application replaces the scrolled widget (WidgetDecoration.original_widget): the new content may be
+            # of another sizing kind (flow <-> fixed-only) than the one the Scrollable was built around
+            spec = SWAPS[op["swap"] % len(SWAPS)]
+            self.inner = build_inner(spec)
+            if self.direct:
+                self.hook_inner(self.inner)
+            self.sc.original_widget = self.inner
+            self.log.add("content", ["swap", spec["k"]])
+            self.res.probe("content_widget_replaced")
+            if ("flow" in inner.sizing()) != ("flow" in self.inner.sizing()):
+                self.res.probe("content_widget_replaced_by_other_sizing_kind")
+            return
         if isinstance(inner, urwid.Text):
             inner.set_text("\n".join(f"line {j}" for j in range(n)))
             self.log.add("content", ["text", n])
@@ -712,6 +744,8 @@ class ScrollEngine(Engine):
                 ops.append({"op": "resize", "size": [rng.choice([1, 2, 3, 5, 10, 20]), rng.choice([1, 2, 4, 7, 10])]})
             elif q < 0.70:
                 ops.append({"op": "content", "n": rng.choice([0, 1, 2, 8, 25]), "grow": rng.random() < 0.5, "i": rng.randrange(7)})
+                if rng.random() < 0.2:
+                    ops[-1]["swap"] = rng.randrange(len(SWAPS))
             elif q < 0.73:
                 ops.append({"op": "focus", "on": rng.random() < 0.7})
             else:
